@@ -121,13 +121,22 @@ impl Eq for P {}
 impl std::fmt::Debug for P {
     fn fmt(&self, f: &mut std::fmt::Formatter<'_>) -> std::fmt::Result {
         log_un("fmt", "own", self, "0");
-        write!(f, "p{}", self.v)
+        // the alternate flag must reach the field: upper case in pretty mode
+        if f.alternate() {
+            write!(f, "P{}", self.v)
+        } else {
+            write!(f, "p{}", self.v)
+        }
     }
 }
 
 pub fn m_fmt(a: &P, f: &mut std::fmt::Formatter<'_>) -> std::fmt::Result {
     log_un("fmt", "method", a, "0");
-    write!(f, "m{}", a.v)
+    if f.alternate() {
+        write!(f, "M{}", a.v)
+    } else {
+        write!(f, "m{}", a.v)
+    }
 }
 
 fn own_pcmp(x: i8, y: i8) -> Option<Ordering> {
@@ -273,6 +282,9 @@ impl<const K: u8> std::fmt::Debug for PK<K> {
 pub fn m_any<T>(_: &T, f: &mut std::fmt::Formatter<'_>) -> std::fmt::Result {
     f.write_str("any")
 }
+
+/// hashing method usable for any field type (bystander Hash attributes)
+pub fn m_anyhash<T, H: Hasher>(_: &T, _: &mut H) {}
 
 /// a user expression (not a literal)
 pub fn pexpr<const K: u8>(n: i8) -> PK<K> {
@@ -738,6 +750,17 @@ impl<const K: u8> TT<K> {
 
     pub fn finger(&self) -> String {
         format!("[\"{}\",{},{},{}]", side_name(self.s), self.f, self.v, self.g)
+    }
+}
+
+impl<const K: u8> std::fmt::Debug for TT<K> {
+    fn fmt(&self, f: &mut std::fmt::Formatter<'_>) -> std::fmt::Result {
+        write!(f, "tt{}", self.v)
+    }
+}
+impl<const K: u8> Hash for TT<K> {
+    fn hash<H: Hasher>(&self, state: &mut H) {
+        state.write_i8(self.v);
     }
 }
 
